@@ -165,6 +165,10 @@ func handleCCR() diam.HandlerFunc {
 					}
 
 					requestQuota = quota
+					if requestQuota < 0 {
+						// overdrawn account: nothing can be granted
+						requestQuota = 0
+					}
 				}
 
 				creditControl = &charging_datatype.MultipleServicesCreditControl{
